@@ -16,6 +16,9 @@ use beff_core::subtyping::subtype::{
 };
 use std::rc::Rc;
 
+// number literals that only a coarse identity confuses: neighbours in the ninth decimal and beyond, integers beyond 2^63
+// (written as f64's Display prints them, which is also the canonical text of the model)
+const NF_LITS: &[&str] = &["0.3", "0.30000000000000004", "3.1415926535", "3.1415926536", "1000000000000000000000", "10000000000000000000000"];
 const ATOMS: &[&str] = &["string", "number", "boolean", "null", "undefined", "unknown", "never", "optional"];
 
 pub fn gen_script(rng: &mut Rng, steps: usize) -> Sx {
@@ -24,7 +27,7 @@ pub fn gen_script(rng: &mut Rng, steps: usize) -> Sx {
     for _ in 0..natoms {
         atoms.push(match rng.below(10) {
             0 | 1 => atom(*rng.pick(ATOMS)),
-            2 => if rng.chance(1, 3) { list(vec![atom("l"), num(rng.below(2))]) } else { list(vec![atom("o"), num(rng.below(3))]) },
+            2 => if rng.chance(1, 3) { list(vec![atom("l"), num(rng.below(2))]) } else if rng.chance(1, 2) { list(vec![atom("nf"), st(*rng.pick(NF_LITS))]) } else { list(vec![atom("o"), num(rng.below(3))]) },
             3 | 4 | 5 => list(vec![atom("s"), st(*rng.pick(&["a", "b", "c"]))]),
             6 | 7 | 8 => list(vec![atom("n"), num(rng.below(3))]),
             _ => list(vec![atom("b"), atom(if rng.chance(1, 2) { "true" } else { "false" })]),
@@ -98,6 +101,7 @@ fn mk(a: &Sx) -> SemType {
             "s" => SemTypeContext::string_const(StringLitOrFormat::Tpl(TplLitType(vec![TplLitTypeItem::StringConst(v[1].as_str().to_string())]))),
             "n" => SemTypeContext::number_const(NumberRepresentationOrFormat::Lit(N::parse_int(v[1].as_usize() as i64))),
             "b" => SemTypeContext::boolean_const(v[1].as_atom() == "true"),
+            "nf" => SemTypeContext::number_const(NumberRepresentationOrFormat::Lit(N::parse_f64(v[1].as_str().parse::<f64>().unwrap()))),
             "o" => SemTypeContext::mapping_definition_from_idx(v[1].as_usize()),
             "l" => SemTypeContext::list_definition_from_idx(v[1].as_usize()),
             _ => panic!("bad atom"),
@@ -117,14 +121,16 @@ enum V {
     Other,
     Obj(u8),
     Lst(u8),
+    NF(&'static str),
 }
 const SAMPLES: &[V] = &[V::B(true), V::B(false), V::N(0), V::N(1), V::N(2), V::N(7), V::S("a"), V::S("b"), V::S("c"), V::S("zz"), V::Null, V::Undef, V::Absent, V::Other,
-    V::Obj(0), V::Obj(1), V::Obj(2), V::Obj(3), V::Obj(4), V::Obj(5), V::Obj(6), V::Obj(7), V::Lst(0), V::Lst(1), V::Lst(2), V::Lst(3)];
+    V::Obj(0), V::Obj(1), V::Obj(2), V::Obj(3), V::Obj(4), V::Obj(5), V::Obj(6), V::Obj(7), V::Lst(0), V::Lst(1), V::Lst(2), V::Lst(3),
+    V::NF("0.3"), V::NF("0.30000000000000004"), V::NF("3.1415926535"), V::NF("3.1415926536"), V::NF("1000000000000000000000"), V::NF("10000000000000000000000")];
 
 fn tag_of(v: V) -> SubTypeTag {
     match v {
         V::B(_) => SubTypeTag::Boolean,
-        V::N(_) => SubTypeTag::Number,
+        V::N(_) | V::NF(_) => SubTypeTag::Number,
         V::S(_) => SubTypeTag::String,
         V::Null => SubTypeTag::Null,
         V::Undef => SubTypeTag::VoidUndefined,
@@ -152,6 +158,11 @@ fn mem(t: &SemType, v: V) -> bool {
             }
             (ProperSubtype::String { allowed, values }, V::S(x)) => {
                 values.iter().any(|k| matches!(k, StringLitOrFormat::Tpl(TplLitType(items)) if items.len() == 1 && items[0] == TplLitTypeItem::StringConst(x.to_string()))) == *allowed
+            }
+            // (a literal is itself by the value it denotes: the f64 it parses to)
+            (ProperSubtype::Number { allowed, values }, V::NF(x)) => {
+                let f: f64 = x.parse().unwrap();
+                values.iter().any(|k| matches!(k, NumberRepresentationOrFormat::Lit(n) if n.to_f64() == f)) == *allowed
             }
             (ProperSubtype::Mapping(b), V::Obj(m)) => eval_bdd(b, &|a| matches!(a, Atom::Mapping(i) if (m >> i) & 1 == 1)),
             (ProperSubtype::List(b), V::Lst(m)) => eval_bdd(b, &|a| matches!(a, Atom::List(i) if (m >> i) & 1 == 1)),
